@@ -11,7 +11,7 @@ SHARDS = {"quick": 8, "thorough": 16}
 META = {
     "level": "exploration",
     "technique": "runtime monitoring: Cookie header of every handshake request in enumerated histories of connections (real connect() path on the simulated network, process-wide jar reset per history) compared with an executable cookie-jar model",
-    "claim": "For all histories up to length 3 (quick: all of length <= 2, sampled length 3) / 3 plus sampled length 4 (thorough) of handshake responses carrying Set-Cookie headers (names {a,b} and {a,a-b}, values {1,2}, domains x.t / X.T / .x.t / s.x.t / y.t / t / none, one or two Set-Cookie lines, also on redirects) followed by connections to x.t, X.t, s.x.t, ax.t, y.t and t with and without a caller cookie, the Cookie header sent was exactly the name-sorted cookies of the domains covering the target (label boundary, case-insensitive, latest value winning) followed by the caller's cookie, and absent when empty.",
+    "claim": "For all histories up to length 3 (quick: all of length <= 2, sampled length 3) / 3 plus sampled length 4 (thorough) of handshake responses carrying Set-Cookie headers (names {a,b} and {a,a-b}, values {1,2}, domains x.t / X.T / .x.t / s.x.t / y.t / t / none, one or two Set-Cookie lines, also on redirects) followed by connections to x.t, X.t, s.x.t, y.t, t and the look-alikes ax.t, x-t, s-x.t, sxx.t, with no caller cookie or one that is unrelated to / equal to / a substring of the jar cookies, the Cookie header sent was exactly the name-sorted cookies of the domains covering the target (label boundary, case-insensitive, latest value winning) followed by the caller's cookie, and absent when empty.",
     "trusted": "reference jar model in this file; strict request parser; simulated network",
     "rule": "case = (history of responses, probe host, caller cookie); distinct by that tuple; non-trivial when the history stores at least one cookie",
     "exhaustive": {"quick": False, "thorough": False},
@@ -22,7 +22,7 @@ META = {
 }
 
 DOMAINS = ["x.t", "X.T", ".x.t", "s.x.t", "y.t", "t", None]
-PROBES = ["x.t", "X.t", "s.x.t", "ax.t", "y.t", "t"]
+PROBES = ["x.t", "X.t", "s.x.t", "ax.t", "y.t", "t", "x-t", "s-x.t", "sxx.t"]
 
 
 def cookie_sets(names):
@@ -125,7 +125,7 @@ def history_case(res, W, rng, hst):
         ref.add(domain, cs)
         stored = stored or domain is not None
     for probe in PROBES:
-        caller = rng.choice([None, "me=1"])
+        caller = rng.choice([None, "me=1", "a=1", "=1", "b=2", "a=1; b=2"])
         n0 = len(requests)
         try:
             w = W.create_connection(f"ws://{probe}/", timeout=2, **({"cookie": caller} if caller else {}))
@@ -137,7 +137,7 @@ def history_case(res, W, rng, hst):
         _, _, _, headers, _ = RH.parse_request(req)
         ck = RH.get_all(headers, "Cookie")
         pairs, _ = ref.header(probe, caller)
-        exp_items = [f"{n}={v}" for n, v in pairs] + ([caller] if caller else [])
+        exp_items = [f"{n}={v}" for n, v in pairs] + (caller.split("; ") if caller else [])
         res.case((hst, probe, caller), nontrivial=stored)
         res.count("cookie_headers_checked")
         case = {"history": hst, "probe": probe, "caller_cookie": caller}
@@ -145,7 +145,7 @@ def history_case(res, W, rng, hst):
             res.count("nonempty_expected")
         if not exp_items:
             if ck:
-                leak = "lookalike" if probe == "ax.t" else "outside"
+                leak = "lookalike" if probe in ("ax.t", "x-t", "s-x.t", "sxx.t") else "outside"
                 res.violation("cookie-leak", f"history {hst} probe {probe}: Cookie {ck!r} sent, none expected", case, probe_class=leak)
             continue
         if len(ck) != 1:
@@ -161,8 +161,9 @@ def history_case(res, W, rng, hst):
                           upper=any(d and d != d.lower() for d, _ in hst), probe_class="lookalike" if probe == "ax.t" else "other")
             continue
         # order: names non-decreasing among jar cookies, caller's cookie last
-        jar_part = got_items[:-1] if caller else got_items
-        if caller and got_items[-1] != caller:
+        ncaller = len(caller.split("; ")) if caller else 0
+        jar_part = got_items[:-ncaller] if caller else got_items
+        if caller and "; ".join(got_items[-ncaller:]) != caller:
             res.violation("cookie-order", f"caller cookie not last: {ck[0]!r}", case, order="caller-not-last")
         names = [g.split("=", 1)[0] for g in jar_part]
         if names != sorted(names):
